@@ -8226,7 +8226,8 @@ class Parser:
 
             if not to:
                 to = exp.DType.UNKNOWN.into_expr()
-            if to.this in exp.DataType.TEMPORAL_TYPES:
+            # Only a string literal can be translated, a parameter is kept as the cast's format
+            if to.this in exp.DataType.TEMPORAL_TYPES and (not fmt_string or fmt_string.is_string):
                 this = self.expression(
                     (exp.StrToDate if to.this == exp.DType.DATE else exp.StrToTime)(
                         this=this,
